@@ -50,7 +50,30 @@ RTOL = 1e-9
 MAX_MINIMISED_PER_RUN = 2
 PE_FAMILIES = ('dry', 'time', 'moist', 'cloud')
 INTEGRATORS = ['backward_forward_euler', 'crank_nicolson_rk2', 'crank_nicolson_rk3',
-               'crank_nicolson_rk4', 'imex_rk_sil3', 'semi_implicit_leapfrog']
+               'crank_nicolson_rk4', 'imex_rk_sil3', 'semi_implicit_leapfrog',
+               'ars232', 'ars222', 'imex_midpoint']
+
+_G = 1 - 1 / math.sqrt(2)
+_D = -2 * math.sqrt(2) / 3
+_D2 = 1 - 1 / (2 * _G)
+# user-supplied Butcher tableaux run through the library's generic imex_runge_kutta
+TABLEAUX = {
+    # Ascher, Ruuth & Spiteri (1997) ARS(2,3,2)
+    'ars232': dict(a_ex=[[_G], [_D, 1 - _D]], a_im=[[0, _G], [0, 1 - _G, _G]],
+                   b_ex=[0, 1 - _G, _G], b_im=[0, 1 - _G, _G]),
+    # ARS(2,2,2)
+    'ars222': dict(a_ex=[[_G], [_D2, 1 - _D2]], a_im=[[0, _G], [0, 1 - _G, _G]],
+                   b_ex=[_D2, 1 - _D2, 0], b_im=[0, 1 - _G, _G]),
+    # implicit-explicit midpoint (1,2,2)
+    'imex_midpoint': dict(a_ex=[[1 / 2]], a_im=[[0, 1 / 2]], b_ex=[0, 1], b_im=[0, 1]),
+}
+
+
+def get_integrator(name):
+  if name in TABLEAUX:
+    tab = ti.ImExButcherTableau(**TABLEAUX[name])
+    return functools.partial(ti.imex_runge_kutta, tab)
+  return getattr(ti, name)
 IMPLS = {'real': 'RealSphericalHarmonics', 'fast': 'FastSphericalHarmonics',
          'fastz': 'RealSphericalHarmonicsWithZeroImag'}
 
@@ -103,6 +126,7 @@ def draw_job(rng: random.Random, prop: str, opts) -> dict:
   }
   # some runs live on a padded modal layout from the start (structural zeros in
   # the padding are then monitored on every state of the run)
+  job['oro_unclipped'] = rng.random() < 0.5
   job['layout0'] = {}
   if prop in ('C11', 'C07') and impl != 'real' and rng.random() < 0.4:
     job['layout0'] = {'base': rng.choice([2, 4, 8])}
@@ -199,7 +223,7 @@ def build_filters(job, grid):
 
 
 def build_step(job, coords, eq):
-  integ = getattr(ti, job['integrator'])
+  integ = get_integrator(job['integrator'])
   return ti.step_with_filters(integ(eq, job['dt']), build_filters(job, coords.horizontal))
 
 
@@ -402,6 +426,11 @@ class RefWorld:
     if job['family'] == 'sw':
       h = 0.02 if job['oro'] else 0.0
     self.oro = gen.random_orography(rs, self.coords.horizontal, h)
+    if job.get('oro_unclipped') and h:
+      # modal orography as `grid.to_modal(mountain)` gives it: the top total
+      # wavenumber is populated
+      self.oro = gen.random_modal(rs, self.coords.horizontal, (), amp=h, decay=2.0,
+                                  clip_top=False)
     self.eq = build_equation(job, self.coords, self.oro)
     self._rebuild()
     s0 = initial_state(job, self.coords, self.eq)
